@@ -24,6 +24,7 @@ CURATED = [
     "a @ b", "a // b", "a % b", "a << b >> c", "a | b ^ c & d", "(a | b) & c", "a is not b", "a not in xs",
     "a < b <= c != d", "f(a)(b)[c].x", "{a}", "{a: b}", "{}", "[]", "[a for a in xs]", "f(a for a in xs)",
     "a if b else c or d", "(a if b else c) or d", "lambda p, q: p + q", "lambda: a", "lambda *va: va", "lambda p=1: p",
+    "f'{ {a}.union(xs) }'", "f'{ {a: b}[a] }'", "f'{ {a} | {b} }'", "f'{ {a, b} }'", "f'{ {} }'", "f'x{ {a: b} }y'", "f'{ {a}.pop():>3}'",
     "lambda p, *, k1: p", "lambda *, k1, k2=0: k1", "lambda *va, k1: k1", "lambda **kw: kw", "lambda p, /, q: q", "lambda p, q=1, *va, k1, **kw: p",
 ]
 
